@@ -625,13 +625,24 @@ def main():
     la, da = gen_stage_a(c, cfgs, scale)
     # corpus first
     cdir = os.path.join(ROOT, "gen", "corpus", "C05")
-    corpus_lines = []
+    corpus_lines, corpus_expect = [], []
     if os.path.isdir(cdir):
         for f in sorted(os.listdir(cdir)):
             if f.endswith(".lines"):
-                corpus_lines += [l.strip() for l in open(os.path.join(cdir, f)) if l.strip() and not l.startswith("#")]
+                for l in open(os.path.join(cdir, f)):
+                    l = l.strip()
+                    if not l or l.startswith("#"):
+                        continue
+                    case, _, exp = l.partition(" ## ")
+                    corpus_lines.append(case.strip())
+                    corpus_expect.append(exp.strip() or None)
     if corpus_lines:
-        run_stage("corpus", corpus_lines, [None] * len(corpus_lines))
+        ic, mc = run_stage("corpus", corpus_lines, [{"op": "corpus"}] * len(corpus_lines))
+        for k, (l, e, o) in enumerate(zip(corpus_lines, corpus_expect, ic)):
+            if e is not None and o != e:
+                oid = l.split()[1] if len(l.split()) > 1 else None
+                ctx = [x for x in corpus_lines[:k] if x.split()[0] in ("hmac", "aes", "aes2", "pool") and x.split()[1] == oid][-1:] + [l]
+                bad.append((f"corpus witness: the real code answers {o[:80]!r}, recorded answer is {e[:80]!r}", {"lines": ctx, "impl": o, "expected": e}))
     ia, ma = run_stage("issue", la, da)
     issued, ciphers = [], []
     jlines = []
